@@ -29,29 +29,37 @@ BodyNames == {"mock", "callInfo"}
 (* the harness: k, n, p, e, r).  "judged" shapes are those the statement of  *)
 (* C13 and the comment of varNameForType document; the others are compared   *)
 (* as drift only.                                                            *)
-BasicName(n) ==
+Unsigned == {<<"u","i","n","t">>, <<"u","i","n","t","8">>, <<"u","i","n","t","1","6">>, <<"u","i","n","t","3","2">>,
+             <<"u","i","n","t","6","4">>, <<"u","i","n","t","p","t","r">>, <<"b","y","t","e">>}
+Signed   == {<<"i","n","t">>, <<"i","n","t","8">>, <<"i","n","t","1","6">>, <<"i","n","t","3","2">>, <<"i","n","t","6","4">>, <<"r","u","n","e">>}
+
+(* asWritten = TRUE: basicTypeVarName compares Basic.Info() by equality, so  *)
+(* unsigned kinds (IsInteger|IsUnsigned) fall through to "v"; FALSE: the     *)
+(* documented rule "n for integers"                                          *)
+BasicNameR(n, asWritten) ==
     CASE n = <<"s","t","r","i","n","g">> -> <<"s">>
       [] n = <<"b","o","o","l">> -> <<"b">>
-      [] n \in {<<"i","n","t">>, <<"i","n","t","8">>, <<"i","n","t","1","6">>, <<"i","n","t","3","2">>, <<"i","n","t","6","4">>,
-                <<"u","i","n","t">>, <<"u","i","n","t","8">>, <<"u","i","n","t","1","6">>, <<"u","i","n","t","3","2">>,
-                <<"u","i","n","t","6","4">>, <<"u","i","n","t","p","t","r">>, <<"b","y","t","e">>, <<"r","u","n","e">>} -> <<"n">>
+      [] n \in Signed -> <<"n">>
+      [] n \in Unsigned -> IF asWritten THEN <<"v">> ELSE <<"n">>
       [] n \in {<<"f","l","o","a","t","3","2">>, <<"f","l","o","a","t","6","4">>} -> <<"f">>
       [] OTHER -> <<"v">>
+BasicName(n) == BasicNameR(n, FALSE)
 
-RECURSIVE VarNameForType(_)
-Nested(t) == IF t.k = "basic" THEN DeCapitalise(t.nc) ELSE VarNameForType(t)
-VarNameForType(t) ==
-    CASE t.k = "basic"  -> BasicName(t.nc)
+RECURSIVE VarNameR(_, _)
+NestedR(t, w) == IF t.k = "basic" THEN DeCapitalise(t.nc) ELSE VarNameR(t, w)
+VarNameR(t, w) ==
+    CASE t.k = "basic"  -> BasicNameR(t.nc, w)
       [] t.k = "named"  -> IF t.nc = <<"e","r","r","o","r">> THEN <<"e","r","r">>
                            ELSE IF DeCapitalise(t.nc) = t.nc THEN t.nc \o <<"M","o","q","P","a","r","a","m">> ELSE DeCapitalise(t.nc)
-      [] t.k = "ptr"    -> VarNameForType(t.e[1])
-      [] t.k \in {"slice", "array"} -> Nested(t.e[1]) \o <<"s">>
-      [] t.k = "map"    -> Nested(t.e[1]) \o <<"T","o">> \o Capitalise(Nested(t.e[2]))
-      [] t.k = "chan"   -> Nested(t.e[1]) \o <<"C","h">>
+      [] t.k = "ptr"    -> VarNameR(t.e[1], w)
+      [] t.k \in {"slice", "array"} -> NestedR(t.e[1], w) \o <<"s">>
+      [] t.k = "map"    -> NestedR(t.e[1], w) \o <<"T","o">> \o Capitalise(NestedR(t.e[2], w))
+      [] t.k = "chan"   -> NestedR(t.e[1], w) \o <<"C","h">>
       [] t.k = "func"   -> <<"f","n">>
       [] t.k = "struct" -> <<"v","a","l">>
       [] t.k = "iface"  -> <<"i","f","a","c","e","V","a","l">>
       [] OTHER          -> <<"v">>
+VarNameForType(t) == VarNameR(t, FALSE)
 
 (* varName: a default name that would shadow something gets the MoqParam suffix *)
 ReservedDefaults == Keywords \cup BodyNames \cup
